@@ -367,6 +367,11 @@ def explore(rng, n, tag="explore"):
             t = rng.choice(cat)
             o = rng.choice(t["offerings"])
             nodes.append(dc.node("fresh", "pr", t["name"], zone=o["zone"], ct=o["ct"], stage=rng.choice(["registered", "launched"])))
+        # PodDisruptionBudgets: most allow a disruption (the pod is owed a home), a few block their node altogether (C07)
+        pdbs = []
+        for j, pp in enumerate([x for x in pods if x["owner"] == "replicaset" and x["node"].startswith("n")]):
+            if rng.random() < 0.12:
+                pdbs.append(dc.pdb("pdb%d" % j, dict(pp["labels"]), allowed=rng.choice([1, 1, 2, 0])))
         daemonsets = []
         if rng.random() < 0.3:
             daemonsets.append(with_daemonset(nodes, pods, cpu=rng.choice([100, 300, 600])))
@@ -376,7 +381,7 @@ def explore(rng, n, tag="explore"):
         if rng.random() < 0.3:
             steps.append({"a": "Round"})
         tags = {"kind": tag, "idx": k, "profile": profile, "ntypes": ntypes, "flag": s2s, "policy": policy}
-        out.append(scenario("%s:%d" % (tag, k), cat, pools, nodes, pods, steps, tags, s2s=s2s, daemonsets=daemonsets,
+        out.append(scenario("%s:%d" % (tag, k), cat, pools, nodes, pods, steps, tags, s2s=s2s, daemonsets=daemonsets, pdbs=pdbs,
                             minValuesPolicy=rng.choice(["", "", "BestEffort"])))
     return out
 
